@@ -23,25 +23,33 @@ CONSTANTS Writers,      \* set of writer actor ids (naturals > 0)
           Aborting,     \* writers that abort instead of committing
           NT,           \* tables registered initially (1..NT)
           Registrar,    \* actor id of the registrar (0 = none); registers table NT+1, then writes it
+          Collector,    \* actor id of the graveyard collector (0 = none): scans the published root without any
+                        \* lock, picks the tables it has something to remove from (any non-empty subset of the
+                        \* registered tables) and runs an ordinary write transaction over them (one pass).
+                        \* Closing a change iterator is an ordinary single-table write transaction (a Writer).
           Mutant
 
-VARIABLES pc, lk, rootmu, root, txr, nreg, notified, hist
-vars == << pc, lk, rootmu, root, txr, nreg, notified, hist >>
+VARIABLES pc, lk, rootmu, root, txr, nreg, notified, hist,
+          gcreq, gcpass     \* tables of the collector's current pass; passes started
+vars == << pc, lk, rootmu, root, txr, nreg, notified, hist, gcreq, gcpass >>
 
-Actors == Writers \cup (IF Registrar = 0 THEN {} ELSE {Registrar})
+Actors == Writers \cup (IF Registrar = 0 THEN {} ELSE {Registrar}) \cup (IF Collector = 0 THEN {} ELSE {Collector})
 MaxT == NT + 1
-TabsOf(a) == IF a = Registrar THEN {NT + 1} ELSE { Req[a][i] : i \in 1..Len(Req[a]) }
+TabsOf(a) == IF a = Registrar THEN {NT + 1}
+             ELSE IF a = Collector THEN gcreq
+             ELSE { Req[a][i] : i \in 1..Len(Req[a]) }
 Held(a) == { t \in 1..MaxT : lk[t] = a }
 \* next mutex to take: ascending order (the sorted lock order); the mutant takes them as requested
 NextLock(a) ==
     LET rest == TabsOf(a) \ Held(a) IN
     IF rest = {} THEN 0
-    ELSE IF Mutant = "unsortedLocks" /\ a # Registrar
+    ELSE IF Mutant = "unsortedLocks" /\ a # Registrar /\ a # Collector
          THEN Req[a][CHOOSE i \in 1..Len(Req[a]) : Req[a][i] \in rest /\ \A j \in 1..(i - 1) : Req[a][j] \notin rest]
          ELSE CHOOSE t \in rest : \A u \in rest : t <= u
 
 Init ==
-    /\ pc = [a \in Actors |-> IF a = Registrar THEN "reg.start" ELSE "start"]
+    /\ pc = [a \in Actors |-> IF a = Registrar THEN "reg.start" ELSE IF a = Collector THEN "gc.idle" ELSE "start"]
+    /\ gcreq = {} /\ gcpass = 0
     /\ lk = [t \in 1..MaxT |-> 0]
     /\ rootmu = 0
     /\ root = [t \in 1..NT |-> << >>]
@@ -57,39 +65,39 @@ WBegin(a) ==       \* -> wtxn.begin
     /\ pc[a] = "start"
     /\ Go(a, "wtxn.begin")
     /\ txr' = IF Mutant = "loadBeforeLock" THEN [txr EXCEPT ![a] = root] ELSE txr
-    /\ UNCHANGED << lk, rootmu, root, nreg, notified >>
+    /\ UNCHANGED << lk, rootmu, root, nreg, notified, gcreq, gcpass >>
 
 WLockNext(a) ==    \* one mutex per step -> smu.acquired ... -> wtxn.locked
     /\ pc[a] \in {"wtxn.begin", "smu.acquired"}
     /\ LET t == NextLock(a) IN
        IF t = 0 THEN Go(a, "wtxn.locked") /\ UNCHANGED lk
        ELSE lk[t] = 0 /\ lk' = [lk EXCEPT ![t] = a] /\ Go(a, "smu.acquired")
-    /\ UNCHANGED << rootmu, root, txr, nreg, notified >>
+    /\ UNCHANGED << rootmu, root, txr, nreg, notified, gcreq, gcpass >>
 
 WLoadRoot(a) ==    \* -> wtxn.rootloaded
     /\ pc[a] = "wtxn.locked"
     /\ txr' = IF Mutant = "loadBeforeLock" THEN txr ELSE [txr EXCEPT ![a] = root]
     /\ Go(a, "wtxn.rootloaded")
-    /\ UNCHANGED << lk, rootmu, root, nreg, notified >>
+    /\ UNCHANGED << lk, rootmu, root, nreg, notified, gcreq, gcpass >>
 
 \* the operations: append own id to the private copy of every table held
 WWork(a) ==        \* -> commit.begin / abort.begin
     /\ pc[a] = "wtxn.rootloaded"
     /\ txr' = [txr EXCEPT ![a] = [t \in DOMAIN txr[a] |-> IF t \in TabsOf(a) THEN Append(txr[a][t], a) ELSE txr[a][t]]]
     /\ Go(a, IF a \in Aborting THEN "abort.begin" ELSE "commit.begin")
-    /\ UNCHANGED << lk, rootmu, root, nreg, notified >>
+    /\ UNCHANGED << lk, rootmu, root, nreg, notified, gcreq, gcpass >>
 
 \* ---- Commit
 CIndex(a) ==       \* -> commit.indexes
     /\ pc[a] = "commit.begin" /\ Go(a, "commit.indexes")
     /\ notified' = IF Mutant = "notifyBeforeStore" THEN notified \cup {a} ELSE notified
     /\ lk' = IF Mutant = "unlockBeforeStore" THEN [t \in 1..MaxT |-> IF lk[t] = a THEN 0 ELSE lk[t]] ELSE lk
-    /\ UNCHANGED << rootmu, root, txr, nreg >>
+    /\ UNCHANGED << rootmu, root, txr, nreg, gcreq, gcpass >>
 
 CRootLock(a) ==    \* -> commit.rootlocked
     /\ pc[a] = "commit.indexes" /\ rootmu = 0
     /\ rootmu' = a /\ Go(a, "commit.rootlocked")
-    /\ UNCHANGED << lk, root, txr, nreg, notified >>
+    /\ UNCHANGED << lk, root, txr, nreg, notified, gcreq, gcpass >>
 
 \* build the new root: own tables from the private copy, every other table (and tables registered
 \* meanwhile) from the CURRENT root
@@ -100,49 +108,58 @@ CStore(a) ==       \* -> commit.stored
                    ELSE IF Mutant = "mergeFromBase" /\ t \in DOMAIN txr[a] THEN txr[a][t]
                    ELSE root[t]]
     /\ Go(a, "commit.stored")
-    /\ UNCHANGED << lk, rootmu, txr, nreg, notified >>
+    /\ UNCHANGED << lk, rootmu, txr, nreg, notified, gcreq, gcpass >>
 
 CRootUnlock(a) ==  \* -> commit.rootunlocked
     /\ pc[a] = "commit.stored" /\ rootmu' = 0 /\ Go(a, "commit.rootunlocked")
-    /\ UNCHANGED << lk, root, txr, nreg, notified >>
+    /\ UNCHANGED << lk, root, txr, nreg, notified, gcreq, gcpass >>
 
 CNotify(a) ==      \* -> commit.notified
     /\ pc[a] = "commit.rootunlocked" /\ notified' = notified \cup {a} /\ Go(a, "commit.notified")
-    /\ UNCHANGED << lk, rootmu, root, txr, nreg >>
+    /\ UNCHANGED << lk, rootmu, root, txr, nreg, gcreq, gcpass >>
 
 CTablesUnlock(a) ==   \* -> commit.tablesunlocked
     /\ pc[a] = "commit.notified"
     /\ lk' = [t \in 1..MaxT |-> IF lk[t] = a THEN 0 ELSE lk[t]]
     /\ Go(a, "commit.tablesunlocked")
-    /\ UNCHANGED << rootmu, root, txr, nreg, notified >>
+    /\ UNCHANGED << rootmu, root, txr, nreg, notified, gcreq, gcpass >>
 
-CInitClose(a) == pc[a] = "commit.tablesunlocked" /\ Go(a, "commit.initclosed") /\ UNCHANGED << lk, rootmu, root, txr, nreg, notified >>
-CReturn(a)    == pc[a] = "commit.initclosed" /\ Go(a, "done") /\ UNCHANGED << lk, rootmu, root, txr, nreg, notified >>
+CInitClose(a) == pc[a] = "commit.tablesunlocked" /\ Go(a, "commit.initclosed") /\ UNCHANGED << lk, rootmu, root, txr, nreg, notified, gcreq, gcpass >>
+CReturn(a)    == pc[a] = "commit.initclosed" /\ Go(a, "done") /\ UNCHANGED << lk, rootmu, root, txr, nreg, notified, gcreq, gcpass >>
 
 \* ---- Abort
 AUnlock(a) ==      \* -> abort.unlocked
     /\ pc[a] = "abort.begin"
     /\ lk' = [t \in 1..MaxT |-> IF lk[t] = a THEN 0 ELSE lk[t]]
     /\ Go(a, "abort.unlocked")
-    /\ UNCHANGED << rootmu, root, txr, nreg, notified >>
-AReturn(a) == pc[a] = "abort.unlocked" /\ Go(a, "done") /\ UNCHANGED << lk, rootmu, root, txr, nreg, notified >>
+    /\ UNCHANGED << rootmu, root, txr, nreg, notified, gcreq, gcpass >>
+AReturn(a) == pc[a] = "abort.unlocked" /\ Go(a, "done") /\ UNCHANGED << lk, rootmu, root, txr, nreg, notified, gcreq, gcpass >>
 
 \* ---- registerTable, then an ordinary write transaction on the new table
 RegLock(a) ==      \* -> register.locked
     /\ a = Registrar /\ pc[a] = "reg.start" /\ rootmu = 0
     /\ rootmu' = a /\ Go(a, "register.locked")
-    /\ UNCHANGED << lk, root, txr, nreg, notified >>
+    /\ UNCHANGED << lk, root, txr, nreg, notified, gcreq, gcpass >>
 RegStore(a) ==     \* -> register.stored
     /\ a = Registrar /\ pc[a] = "register.locked"
     /\ root' = (NT + 1 :> << >>) @@ root /\ nreg' = NT + 1
     /\ Go(a, "register.stored")
-    /\ UNCHANGED << lk, rootmu, txr, notified >>
+    /\ UNCHANGED << lk, rootmu, txr, notified, gcreq, gcpass >>
 RegUnlock(a) ==    \* NewTable returns; the registrar now starts a write transaction
     /\ a = Registrar /\ pc[a] = "register.stored"
     /\ rootmu' = 0 /\ Go(a, "start")
-    /\ UNCHANGED << lk, root, txr, nreg, notified >>
+    /\ UNCHANGED << lk, root, txr, nreg, notified, gcreq, gcpass >>
+
+\* ---- graveyard collector: lock-free scan of the published root, then a write transaction over the tables chosen
+GScan(a) ==        \* -> gc.scanned (= "start" of its write transaction)
+    /\ a = Collector /\ pc[a] = "gc.idle"
+    /\ \E S \in (SUBSET DOMAIN root) \ {{}} : gcreq' = S
+    /\ gcpass' = gcpass + 1
+    /\ Go(a, "start")
+    /\ UNCHANGED << lk, rootmu, root, txr, nreg, notified >>
 
 StepOf(a) ==
+    \/ GScan(a)
     \/ WBegin(a) \/ WLockNext(a) \/ WLoadRoot(a) \/ WWork(a)
     \/ CIndex(a) \/ CRootLock(a) \/ CStore(a) \/ CRootUnlock(a) \/ CNotify(a) \/ CTablesUnlock(a)
     \/ CInitClose(a) \/ CReturn(a) \/ AUnlock(a) \/ AReturn(a)
@@ -192,5 +209,5 @@ Act_C05_Grow == \A t \in DOMAIN root : t \in DOMAIN root' /\ Len(root'[t]) >= Le
                     /\ SubSeq(root'[t], 1, Len(root[t])) = root[t]
 Prop_C05_Grow == [][Act_C05_Grow]_vars
 
-View == << pc, lk, rootmu, root, txr, nreg, notified >>
+View == << pc, lk, rootmu, root, txr, nreg, notified, gcreq, gcpass >>
 =============================================================================
